@@ -67,6 +67,7 @@ fn main() {
         "C03" => facets::c03::run(&opts),
         "C04" => facets::c04::run(&opts),
         "C10" => facets::c10::run(&opts),
+        "C05" => facets::c05::run(&opts),
         other => {
             eprintln!("unknown facet {}", other);
             std::process::exit(2)
